@@ -128,6 +128,7 @@ func runC10(c *Ctx) {
 	inHandler := map[string]int{}
 	overlapped := map[string]bool{}
 	slowHandler := false
+	slowFor := time.Millisecond
 	tagOf := func(n *mcp.JSONRPCNotification) string {
 		f := n.Params.AdditionalFields
 		if v, ok := f["tag"].(string); ok {
@@ -158,7 +159,7 @@ func runC10(c *Ctx) {
 			}
 			c.mu.Unlock()
 			if slowHandler {
-				s.Sleep(time.Millisecond)
+				s.Sleep(slowFor)
 			} else {
 				s.Yield("client-handler")
 			}
@@ -195,6 +196,18 @@ func runC10(c *Ctx) {
 	if burst {
 		maxN = 70 + t.Draw(130)
 	}
+	// ... some of them much slower: whatever a client puts between its reader and its handlers
+	// must not give up on a handler that merely takes its time (the calls' own deadline is 5 min)
+	if slowHandler {
+		slowFor = time.Duration(t.Pick(1, 1, 40, 300, 2000)) * time.Millisecond
+		if burst && slowFor > 300*time.Millisecond {
+			slowFor = 300 * time.Millisecond
+		}
+		if slowFor >= 300*time.Millisecond {
+			s.Probe("c10.handlers_slower_than_300ms")
+		}
+	}
+	c.SetPlan("slow_handler_ms", int(slowFor/time.Millisecond))
 	c.SetPlan("burst", burst)
 	c.SetPlan("slow_handler", slowHandler)
 	type callT struct {
